@@ -36,11 +36,11 @@ import (
 )
 
 type c03wCase struct {
-	Fn    string `json:"fn"`              // slice, cond, chain2, chain3, annot
-	Beh   string `json:"beh"`             // behaviour of the (first) worker per record: K D N T X E F ; "" = nil worker
-	Beh2  string `json:"beh2,omitempty"`  // chain: second worker ("-" = nil worker)
-	Beh3  string `json:"beh3,omitempty"`  // chain3: third worker
-	Cond  string `json:"cond,omitempty"`  // cond: '1'/'0' per record, "nil" = nil predicate
+	Fn    string `json:"fn"`             // slice, cond, chain2, chain3, annot
+	Beh   string `json:"beh"`            // behaviour of the (first) worker per record: K D N T X E F ; "" = nil worker
+	Beh2  string `json:"beh2,omitempty"` // chain: second worker ("-" = nil worker)
+	Beh3  string `json:"beh3,omitempty"` // chain3: third worker
+	Cond  string `json:"cond,omitempty"` // cond: '1'/'0' per record, "nil" = nil predicate
 	Break bool   `json:"break_on_error"`
 	N     int    `json:"n"`
 }
@@ -240,36 +240,45 @@ func c03wRun(c c03wCase) (key, desc string) {
 		if c.Beh == "" && c.Fn == "slice" {
 			site += "(nil worker)"
 		}
-		out1, err1 := f(in1)
-		snap := c03wIds(out1)
-		want1, failed, _ := model("r", first, c.Beh)
-		if c.Fn == "cond" && first != nil {
-			// records that do not satisfy the predicate: kept unchanged or left out — the documentation
-			// fixes neither (C16 checks what obiannotate does with them); both are accepted, consistently
+		// expected result(s) of one call. Conditional worker: the records that do not satisfy the
+		// predicate are either left out or passed on unchanged — the documentation fixes neither (C16
+		// checks what obiannotate does with them); both are accepted, but the same one for both calls
+		expected := func(prefix string) ([][]string, bool) {
+			want, failed, _ := model(prefix, first, c.Beh)
+			if first == nil {
+				return [][]string{want}, failed
+			}
 			var alt []string
-			ai := 0
 			for i := 0; i < c.N; i++ {
-				id := fmt.Sprintf("r%d", i)
+				id := fmt.Sprintf("%s%d", prefix, i)
 				if first(i) {
-					r, bad := c03wApply(c.Beh, id)
-					if !bad {
+					if r, bad := c03wApply(c.Beh, id); !bad {
 						alt = append(alt, r...)
 					}
-					continue
+				} else {
+					alt = append(alt, id)
 				}
-				alt = append(alt, id)
-				ai++
 			}
-			if k, _ := c03wCheckSlice(site, c.Break, out1, err1, alt, failed); k == "" {
-				want1 = alt
+			return [][]string{want, alt}, failed
+		}
+		out1, err1 := f(in1)
+		snap := c03wIds(out1)
+		wants1, failed := expected("r")
+		variant := -1
+		var k1, d1 string
+		for v, w := range wants1 {
+			if k1, d1 = c03wCheckSlice(site, c.Break, out1, err1, w, failed); k1 == "" {
+				variant = v
+				break
 			}
 		}
-		if k, d := c03wCheckSlice(site, c.Break, out1, err1, want1, failed); k != "" {
-			return k, d
+		if variant < 0 {
+			k1, d1 = c03wCheckSlice(site, c.Break, out1, err1, wants1[0], failed)
+			return k1, d1
 		}
 		out2, err2 := f(in2)
-		want2, failed2, _ := model("s", first, c.Beh)
-		if k, d := c03wCheckSlice(site+"/second-call", c.Break, out2, err2, want2, failed2); k != "" && !(c.Fn == "cond" && first != nil) {
+		wants2, failed2 := expected("s")
+		if k, d := c03wCheckSlice(site+"/second-call", c.Break, out2, err2, wants2[variant], failed2); k != "" {
 			return k, d
 		}
 		if !(failed && c.Break) && strings.Join(c03wIds(out1), ",") != strings.Join(snap, ",") {
